@@ -133,15 +133,15 @@ PROPS = {
         "level": "exploration",
         "quick": cfg(16, 30),
         "thorough": cfg(16, 400),
-        "rule": "2/3 of the cases: a random non-empty subset of {NonVerbose, SomeIp, CAN, Muniic, Rewrite} in random order, created through factory::get_plugin from the repository's FIBEX/JSON/cfg files, processes 20-220 messages of mixed traffic (non-verbose ids of the FIBEX files and near misses with/without extended header, SOME/IP-like and CAN-like network traces incl. truncated frames, 13-argument Muniic messages, SYS/JOUR texts matching and not matching the rewrite regex, control messages, ordinary logs; both byte orders): conservation monitor with allowed-change mask {payload_text; extended header may appear when missing; timestamp only if Rewrite is active}. 1/3: AnonymizePlugin on lifecycle scenarios with ECU ids incl. ids that look like pseudonyms (E001..E003 in random first-seen order) and 1-900 APIDs/CTIDs: mapping functions and injectivity for ecu / (ecu,apid) / (ecu,apid,ctid), times untouched, and lifecycle detection on the re-exported anonymised trace vs the original (same partition of messages, same start/end/nr_msgs up to the ECU renaming). Non-trivial = >=1 plugin changed a text resp. >=2 ECUs and >=2 lifecycles; distinct = (plugin order, changed-text bucket) resp. (ecus, apids, lifecycles, mode, position of E001).",
+        "rule": "2/3 of the cases: a random non-empty subset of {NonVerbose, SomeIp, CAN, Muniic, Rewrite, NonVerbose with the harness' own FIBEX (harness/fibex/nv_rich.xml: one frame per signal type S_UINT8..S_RAW, a 17-value frame, text-only and empty frames, ECU EcuR)} in random order, created through factory::get_plugin from the repository's FIBEX/JSON/cfg files, processes 20-220 messages of mixed traffic (non-verbose ids of the FIBEX files and near misses with/without extended header and payloads of exactly / one less / one more than the frame's byte length, SOME/IP-like and CAN-like network traces incl. truncated frames, 13-argument Muniic messages, SYS/JOUR texts matching and not matching the rewrite regex, control messages, ordinary logs; both byte orders): conservation monitor with allowed-change mask {payload_text; extended header may appear when missing; timestamp only if Rewrite is active}. 1/3: AnonymizePlugin on lifecycle scenarios with ECU ids incl. ids that look like pseudonyms (E001..E003 in random first-seen order) and 1-900 APIDs/CTIDs: mapping functions and injectivity for ecu / (ecu,apid) / (ecu,apid,ctid), times untouched, and lifecycle detection on the re-exported anonymised trace vs the original (same partition of messages, same start/end/nr_msgs up to the ECU renaming). Non-trivial = >=1 plugin changed a text resp. >=2 ECUs and >=2 lifecycles; distinct = (plugin order, changed-text bucket) resp. (ecus, apids, lifecycles, mode, position of E001).",
         "floors": {"quick": {"evaluations": 100000, "distinct_nontrivial": 1000, "messages_with_changed_text": 1000000, "text_changed_traffic_class_0": 50000, "text_changed_traffic_class_1": 50000, "text_changed_traffic_class_2": 50000, "text_changed_traffic_class_3": 10000, "text_changed_traffic_class_4": 50000, "anon_lifecycle_tables_compared": 20000}, "thorough": {"evaluations": 1000000, "distinct_nontrivial": 3000}},
-        "assumptions": ["plugin configuration = the files shipped in /repo/tests (fibex1.xml, non_verbose*.xml, rewrite.cfg, muniic/min.json)", "pseudonym capacity (3 digits) is respected by the generator", "FileTransfer/Export plugins may drop messages by design and are covered by C17 / C12"],
+        "assumptions": ["plugin configuration = the files shipped in /repo/tests (fibex1.xml, non_verbose*.xml, rewrite.cfg, muniic/min.json) plus the well-formed harness FIBEX nv_rich.xml", "pseudonym capacity (3 digits) is respected by the generator", "FileTransfer/Export plugins may drop messages by design and are covered by C17 / C12"],
     },
     "C03": {
         "level": "exploration",
         "quick": cfg(16, 45, timeout_factor=8),
         "thorough": cfg(16, 900, timeout_factor=3),
-        "rule": "inputs: windows of the repository example files (dlt/asc/txt/log) and generated rich traces (verbose typed arguments, non-verbose FIBEX ids, control requests/responses incl. GET_LOG_INFO status 3-8 with descriptions, GET_SW_VERSION, unregister/connection/timezone, verbose control messages with short arguments, complete file transfers and file transfers with boundary valued sizes/package counts/package numbers, SOME/IP- and CAN-like network traces, segmented SOME/IP transfers (NWST/NWCH/NWEN with chunk counts and sizes from {0,1,2,...,0xfffe,0xffff}, out-of-sequence chunk numbers, malformed ids), SYS/JOUR texts, Muniic 13-argument messages, all header shapes, reboots) under 1-4 mutations: bit flip, byte set, splice, truncation (also at structural boundaries), insertion, deletion and field-targeted rewrites (len, htyp, noar, msin, timestamp, storage seconds, first payload words, string/raw lengths, status bytes) with values 0/1/7/0xffff/0x7fffffff/0x80000000/u32::MAX/random; serial streams; grammar-based lines for ASC (CAN/CANFD/ErrorFrame/date/BusMapping with out-of-range numbers), logcat (monotonic + threadtime, 19-digit seconds, odd fractions) and generic log (non-ASCII / 70000-char / colliding tags, overflowing dates). Every input runs the WHOLE chain in an isolated worker process: reader for its extension -> header/payload text, argument iteration, to_write -> EacStats -> lifecycle detection -> listing -> time sort -> 9 filters covering every criterion -> plugins (FileTransfer allowSave on/off, NonVerbose, SomeIp, CAN, Muniic, Rewrite, Anonymize); panics are captured per stage, worker death (signal/abort) and stalls are detected by the supervisor and confirmed on the single input, the largest single allocation request is compared with 64 MiB + 1024*|input| unless it equals an input-independent baseline request. Non-trivial = >=1 message reached lifecycle detection and the plugins; distinct = (format, origin, first/last mutation operator, log2 messages).",
+        "rule": "inputs: windows of the repository example files (dlt/asc/txt/log) and generated rich traces (verbose typed arguments, non-verbose FIBEX ids (payload exactly / one less / one more than the frame length), control requests/responses (1/4 under the CAN plugin's log-info ids CAN/TC) incl. GET_LOG_INFO status 3-8 with descriptions, GET_SW_VERSION, unregister/connection/timezone, verbose control messages with short arguments, complete file transfers and file transfers with boundary valued sizes/package counts/package numbers, SOME/IP- and CAN-like network traces, segmented SOME/IP transfers (NWST/NWCH/NWEN with chunk counts and sizes from {0,1,2,...,0xfffe,0xffff}, out-of-sequence chunk numbers, malformed ids), SYS/JOUR texts, Muniic 13-argument messages, all header shapes, reboots) under 1-4 mutations: bit flip, byte set, splice, truncation (also at structural boundaries), insertion, deletion and field-targeted rewrites (len, htyp, noar, msin, timestamp, storage seconds, first payload words, string/raw lengths, status bytes) with values 0/1/7/0xffff/0x7fffffff/0x80000000/u32::MAX/random; serial streams; grammar-based lines for ASC (CAN/CANFD/ErrorFrame/date/BusMapping with out-of-range numbers), logcat (monotonic + threadtime, 19-digit seconds, odd fractions) and generic log (non-ASCII / 70000-char / colliding tags, overflowing dates). Every input runs the WHOLE chain in an isolated worker process: reader for its extension -> header/payload text, argument iteration, to_write -> EacStats -> lifecycle detection -> listing -> time sort -> 9 filters covering every criterion -> plugins (FileTransfer allowSave on/off, NonVerbose with the repository FIBEX and with the harness' FIBEX of all signal types, SomeIp, CAN, Muniic, Rewrite, Anonymize); panics are captured per stage, worker death (signal/abort) and stalls are detected by the supervisor and confirmed on the single input, the largest single allocation request is compared with 64 MiB + 1024*|input| unless it equals an input-independent baseline request. Non-trivial = >=1 message reached lifecycle detection and the plugins; distinct = (format, origin, first/last mutation operator, log2 messages).",
         "floors": {"quick": {"evaluations": 30000, "distinct_nontrivial": 1000, "format_asc": 4000, "format_txt": 4000, "format_log": 2500, "format_dlt": 15000, "inputs_reaching_lifecycle_and_plugins": 25000}, "thorough": {"evaluations": 2000000, "distinct_nontrivial": 3000}},
         "assumptions": ["builds use overflow-checks and debug-assertions, so an arithmetic overflow is observable as a panic", "a worker killed without a reproducible single-input failure is inconclusive, never a violation", "BLF input and the libarchive feature are outside the built configuration"],
     },
@@ -150,7 +150,7 @@ PROPS = {
         "needs_bin": True,
         "quick": cfg(16, 60, timeout_factor=6),
         "thorough": cfg(16, 900, timeout_factor=3),
-        "rule": "websocket sessions against the real `adlt remote` binary (one server per worker, restarted every 8 sessions with a different pacing: parser pause 5-45 us per message or channel capacity 1/2/16 through hook H4): histories of 5-60 commands drawn from a grammar over open (small file, 150 000-message file = parsing in progress, zip archive)/close/pause/resume/stream/query/stop/stream_change_window/stream_binary_search/stream_search/plugin_cmd/fs with live, stale, foreign and malformed ids, missing arguments, broken JSON, wrong JSON types, empty and unknown commands. Client-side session model {file open, live stream ids, live query ids}; after each command exactly one reply frame (ok:/err: naming the command, or the unknown-command notice) within 60 s, replies agree with the model where it is determinate, a final 500 ms quiet period contains no reply, the process is alive and its stderr has no panic. Non-trivial = history with >=1 malformed and >=1 stateful command; distinct = de-duplicated command-kind sequence.",
+        "rule": "websocket sessions against the real `adlt remote` binary (one server per worker, restarted every 8 sessions with a different pacing: parser pause 5-45 us per message or channel capacity 1/2/16 through hook H4): histories of 5-60 commands drawn from a grammar over open (small file, 150 000-message file = parsing in progress, zip archive)/close/pause/resume/stream/query/stop/stream_change_window/stream_binary_search/stream_search/plugin_cmd/fs (stat/readDirectory/unknown sub-commands on directories and on archive paths `<archive>!/<path within>` of a valid zip, a text file named .zip and a truncated zip) with live, stale, foreign and malformed ids, missing arguments, broken JSON, wrong JSON types, empty and unknown commands. Client-side session model {file open, live stream ids, live query ids}; after each command exactly one reply frame (ok:/err: naming the command, or the unknown-command notice) within 60 s, replies agree with the model where it is determinate, a final 500 ms quiet period contains no reply, the process is alive and its stderr has no panic. Non-trivial = history with >=1 malformed and >=1 stateful command; distinct = de-duplicated command-kind sequence.",
         "floors": {"quick": {"evaluations": 150, "distinct_nontrivial": 100, "commands": 5000, "closes_while_file_open": 200, "cmd_search_malformed": 100, "cmd_stream-bad_malformed": 100, "cmd_change_window": 150}, "thorough": {"evaluations": 4000, "distinct_nontrivial": 2000}},
         "assumptions": ["ids of queries disappear asynchronously when they are done: for query ids only 'a reply arrives' is checked, not found/not-found", "a reply missing after 60 s on a machine that is otherwise responsive is a violation; failure to start or connect to the server is inconclusive"],
     },
